@@ -621,6 +621,7 @@ TRANSPARENT_CALLS = (
     "<T as std::convert::From<T>>::from",
     "std::option::Option::<T>::as_ref",
     "std::hint::must_use",
+    "std::slice::<impl [T]>::to_vec",
     "std::convert::AsRef::as_ref",
     "std::borrow::Borrow::borrow",
 )
